@@ -42,6 +42,20 @@ func FilterScripts() []*scriptref.Node {
 	}
 }
 
+// NestedRootScript is a filter script with a $-rooted operand inside a nested
+// filter: $ is the document there too, not the element of the outer filter
+// (used by C05 only; the mutation and streaming checks would report the same
+// defect of the evaluator under their own names).
+func NestedRootScript() *scriptref.Node {
+	return scriptref.B("==", scriptref.P(scriptref.K("a"), scriptref.Step{Filter: scriptref.B("==", scriptref.P(), scriptref.RP(scriptref.K("x")))}), scriptref.C(int64(2)))
+}
+
+// AddFilter appends a filter fragment to the alphabet.
+func (a *PathAlphabet) AddFilter(n *scriptref.Node) *PathAlphabet {
+	a.add("filter", JPFilter(n))
+	return a
+}
+
 // Paths builds the alphabet. full selects the wide slice / index sets
 // (quick tier with paths of <= 2 fragments); otherwise a thinned set with one
 // representative per bound class (thorough tier, <= 3 fragments).
